@@ -259,6 +259,11 @@ def gen_case(rng, fns, maxlen=40, cells=False):
         # braille input: characters of a forward translation are produced elsewhere; here raw cells / chars
         if mode & 4:
             inp = [(c & 0xff) | (0x8000 if rng.chance(0.8) else 0x2800) for c in inp]
+            if rng.chance(0.25) and inp:
+                # cells with virtual dots (9-f), up to all fifteen: undefined in most tables, shown as \dots/ text
+                heavy = [0xffff ^ (1 << b) for b in range(15)] + [0xffff, 0xfffe, 0xbfff, 0xff00, 0xaaaa, 0xd555]
+                for _ in range(rng.range(1, 3)):
+                    inp[rng.below(len(inp))] = rng.choice(heavy) if rng.chance(0.7) else 0x8000 | rng.range(0, 0x7fff)
         elif rng.chance(0.3):
             inp = [0x2800 | (c & 0xff) for c in inp]
     full = len(inp) * 4 + 10
